@@ -34,22 +34,22 @@ CHECKS = {
             "DESIGN.md#c10"),
     "C12": ("exploration",
             "Hypothesis-generated workspaces with override sets and list permutations: structural invariants of the configuration, independent parameter table (defaults/overrides), Workspace.data / Workspace.build round trips, input non-mutation, permutation invariance",
-            "Generated-input search over workspace shapes, override sets and listing orders; each clause of the statement is a separate executable invariant with its own signature.",
+            "Generated-input search over workspace shapes, override sets and listing orders; each clause of the statement is a separate executable invariant with its own signature. Part of the budget is a coverage-guided campaign: atheris/libFuzzer mutates the byte strings that the same Hypothesis strategy decodes into cases, with pyhf instrumented for coverage (shards named fuzz*).",
             "Trusted: documented per-type defaults transcribed in vlib/refmodel.py; random (not exhaustive) permutations.",
             "DESIGN.md#c12"),
     "C20": ("fault_enumeration",
             "fault injection: generated well-formed spec + one (or two) structural faults from an explicit 12-class catalogue at generated positions, plus exhaustive (fault x position) enumeration on a fixed spec; oracle = refusal with a pyhf exception type at both entry points",
-            "Fault enumeration: every catalogue class is injected at every applicable position of a fixed 2-channel spec (exhaustive part) and at generated positions of thousands of generated specs; acceptance or a foreign exception type is a violation with signature C20/<fault_variant>/<entry point>/<outcome>.",
+            "Fault enumeration: every catalogue class is injected at every applicable position of a fixed 2-channel spec (exhaustive part) and at generated positions of thousands of generated specs; acceptance or a foreign exception type is a violation with signature C20/<fault_variant>/<entry point>/<outcome>. Part of the budget is a coverage-guided campaign: atheris/libFuzzer mutates the byte strings that the same Hypothesis strategy decodes into cases, with pyhf instrumented for coverage (shards named fuzz*).",
             "Trusted: the fault injectors produce genuinely inconsistent specs (pairs that can cancel are discarded by construction); the shapefactor-width class is a recorded known finding.",
             "DESIGN.md#c20"),
     "C17": ("fault_enumeration",
             "Hypothesis-generated patch-set documents (internal-word names, mixed-type value tuples, injected duplicates, stateful RFC 6902 operation lists) + per-case exhaustive single-leaf corruption of the verified workspace; oracles: accept iff distinct, exact lookup, digest key-order invariance / corruption sensitivity, independent RFC 6902 applier",
-            "Fault enumeration: for every generated verified workspace every single-leaf corruption (number +-1 ulp/+1, string edit, element removed/duplicated/swapped, key renamed) is enumerated and must change the digest and fail verify(); document-level properties are searched with Hypothesis.",
+            "Fault enumeration: for every generated verified workspace every single-leaf corruption (number +-1 ulp/+1, string edit, element removed/duplicated/swapped, key renamed) is enumerated and must change the digest and fail verify(); document-level properties are searched with Hypothesis. Part of the budget is a coverage-guided campaign: atheris/libFuzzer mutates the byte strings that the same Hypothesis strategy decodes into cases, with pyhf instrumented for coverage (shards named fuzz*).",
             "Trusted: vlib/jsonpatch_ref.py (RFC 6902) and hashlib; 1 and 1.0 are the same value-tuple entry.",
             "DESIGN.md#c17"),
     "C16": ("exploration",
             "Hypothesis-generated workspace pairs with a generated overlap class x join mode x merge flag, prune/rename selections and permutations; oracles: independent model of the documented join semantics, likelihood factorisation (metamorphic, by parameter name), independently filtered spec, inverse rename, sort canonicity, schema validity, input non-mutation",
-            "Generated-input search over overlap patterns (disjoint / identical / conflicting channels, observations, measurements, parameter configs, versions) crossed with all join modes; results are compared structurally against an independent join model and numerically through the likelihood of inputs and outputs.",
+            "Generated-input search over overlap patterns (disjoint / identical / conflicting channels, observations, measurements, parameter configs, versions) crossed with all join modes; results are compared structurally against an independent join model and numerically through the likelihood of inputs and outputs. Part of the budget is a coverage-guided campaign: atheris/libFuzzer mutates the byte strings that the same Hypothesis strategy decodes into cases, with pyhf instrumented for coverage (shards named fuzz*).",
             "Trusted: the join model in props/c16.py written from the docstrings; likelihood relations checked at one generated point per case (1e-9 relative); factorisation checked for join='outer' (left/right outer are documented as unsafe).",
             "DESIGN.md#c16"),
     "C06": ("exploration",
